@@ -1732,6 +1732,25 @@ case_unpackt(void)
 		ob_puts(g_rec.tr_buf);
 }
 
+/* LOOKUP <d> <field number>: the shared descriptor queried by number and by name (f<number>); prints the index found
+ * each way (-1: none).  No model counterpart: used by the multi-threaded run, whose output must equal the sequential one. */
+static void
+case_lookup(void)
+{
+	const ProtobufCMessageDescriptor *desc = tok_desc();
+	unsigned id = tok_u32("field number");
+	char nm[16];
+	const ProtobufCFieldDescriptor *a, *b;
+
+	expect_eol();
+	snprintf(nm, sizeof nm, "f%u", id);
+	a = protobuf_c_message_descriptor_get_field(desc, id);
+	b = protobuf_c_message_descriptor_get_field_by_name(desc, nm);
+	ob_puts("K");
+	ob_sp_u64(a ? (uint64_t) (a - desc->fields) : (uint64_t) -1);
+	ob_sp_u64(b ? (uint64_t) (b - desc->fields) : (uint64_t) -1);
+}
+
 /* SIZES: sizeof_message of every descriptor of the schema (the allocation-level model needs them to print sizes) */
 static void
 case_sizes(void)
@@ -1885,6 +1904,8 @@ run_case(char *line)
 		case_unpackt();
 	else if (!strcmp(kw, "SIZES"))
 		case_sizes();
+	else if (!strcmp(kw, "LOOKUP"))
+		case_lookup();
 	else if (!strcmp(kw, "CHECK"))
 		case_check();
 	else if (!strcmp(kw, "BUF"))
